@@ -75,6 +75,9 @@ VARIANTS = [(n, ["b", n]) for n in (
     ('empty', ["v", "HE0"]), ('eobj', ["v", "HOb"]), ('ebox', ["v", "HBx"]),
     ('ptrrec', ["d", "HPt"]), ('disguised', ["d", "HDg"]), ('alias64', ["al", "HAl"]), ('alias16', ["al", "HAs"]),
     ('arr2alias', ["a", ["al", "HAs"], 3]),
+    # zero-length arrays (GNU C  T m[0];  GIR fixed-size="0"): size 0 but the alignment of T
+    ('z8', ["a", i8, 0]), ('z16', ["a", ["b", "gint16"], 0]), ('z32', ["a", i32, 0]), ('z64', ["a", i64, 0]),
+    ('zptr', ["a", ptr, 0]), ('zdbl', ["a", dbl, 0]),
 ]
 ATOMS = CORE + VARIANTS
 NCORE = len(CORE)
@@ -82,6 +85,11 @@ CB = [n for n, _ in ATOMS].index('cb')
 # scalar kinds used for the exhaustive inner layouts of the nesting families
 INNER = [a for a in CORE if a[0] in ('i8', 'u16', 'i32', 'i64', 'flt', 'dbl', 'ptr', 'bool', 'en', 'arr', 'cb', 'long')]
 INNER_IDX = [[n for n, _ in ATOMS].index(a[0]) for a in INNER]
+
+ZNAMES = ('z8', 'z16', 'z32', 'z64', 'zptr', 'zdbl')
+Z_IDX = [[n for n, _ in ATOMS].index(z) for z in ZNAMES]
+# zero-length arrays are tried in first / middle / last position among these
+ZSEQ_IDX = [[n for n, _ in ATOMS].index(z) for z in ('i8', 'i32', 'ptr', 'dbl')] + Z_IDX
 
 ENUM_VALUES = [-(1 << 63), -(1 << 31) - 1, -(1 << 31), -32769, -32768, -129, -128, -1, 0, 1, 127, 128, 255, 256,
                32767, 32768, 65535, 65536, (1 << 31) - 1, 1 << 31, (1 << 32) - 1, 1 << 32, (1 << 63) - 1]
@@ -228,12 +236,23 @@ def all_specs(tier):
             for idx in itertools.product(range(len(ATOMS)), repeat=3):
                 if sum(1 for i in idx if i >= NCORE) == 1 and not any(i in ex for i in idx):
                     out.append(('seq', cont, idx))
+    # length 3 with at least one zero-length array (first / middle / last) among i8, i32, ptr, dbl
+    have = set(out) if thorough else ()
+    for cont in 'SU':
+        for idx in itertools.product(ZSEQ_IDX, repeat=3):
+            if any(i in Z_IDX for i in idx) and ('seq', cont, idx) not in have:
+                out.append(('seq', cont, idx))
     inner = []
     for ic in 'SU':
         for L in (1, 2):
             for idx in itertools.product(INNER_IDX, repeat=L):
                 if ic == 'U' and CB in idx:
                     continue
+                inner.append((ic, idx))
+    # records made only of zero-length arrays (size 0, alignment of the element), embedded like the others
+    for ic in 'SU':
+        for L in (1, 2):
+            for idx in itertools.product(Z_IDX, repeat=L):
                 inner.append((ic, idx))
     for ic, idx in inner:
         for ctx in range(len(N1_CTX)):
@@ -594,7 +613,8 @@ def run(ctx):
                  'FieldBlob.struct_offset, EnumBlob.storage_type read by vt/typelib.py); both must agree, with helper/'
                  'inner types declared before and after their users. seq: all member sequences of length <= %d over %d '
                  'core kinds and of length <= 2%s over all %d kinds, struct and union; n1/n2: nesting depth 1 and 2 with '
-                 'every inner layout of length <= 2 over %d kinds; en: all %d (min,max) pairs over %d boundary values x '
+                 'every inner layout of length <= 2 over %d kinds and over the 6 zero-length arrays; seq also has every '
+                 'length-3 sequence over {i8,i32,ptr,dbl, T[0] for 6 element types} with a zero-length array; en: all %d (min,max) pairs over %d boundary values x '
                  '{enumeration, bitfield}; x: %d scanner-producible special shapes (one violation key per mechanism). '
                  'non-trivial = every case except bit-field ones'
                  % (4 if thorough else 3, NCORE, ' (plus length 3 with exactly one non-core kind)' if thorough else '',
